@@ -216,6 +216,7 @@ type c11Stream struct {
 	waiting int // Reads waiting with nothing pending
 	reads   int
 	outLen  int
+	out     []byte // everything the connection wrote (c11x.go parses the frames)
 	note    func()
 }
 
@@ -265,10 +266,14 @@ func (s *c11Stream) Write(p []byte) (int, error) {
 	s.mu.Lock()
 	closed := s.closed
 	s.outLen += len(p)
+	if !closed {
+		s.out = append(s.out, p...)
+	}
 	s.mu.Unlock()
 	if closed {
 		return 0, net.ErrClosed
 	}
+	s.note()
 	return len(p), nil
 }
 
